@@ -28,6 +28,9 @@ ATTR = [
  ("fix: HdlcDeframer panicked on frames shorter", ["C13", "C15"]),
  ("fix: TcpSource panicked or corrupted a sample", ["C14", "C15"]),
  ("fix: TcpSource reported EOF when its output", ["C14", "C09"]),
+ ("fix: Repeat::again() underflowed", ["C16"]),
+ ("fix: FileSource with Repeat::finite(0)", ["C16"]),
+ ("fix: SigMFSource emitted the data with Repeat::finite(0)", ["C16", "C15"]),
 ]
 log = subprocess.run(["git", "-C", "/repo", "log", "--reverse", "--format=%h\t%s", "--grep", "^fix:"],
                      capture_output=True, text=True).stdout.strip().splitlines()
